@@ -59,12 +59,17 @@ def check(facts):
                 if ts["k"] != "switch" or ts["discr"].get("k") not in ("copy", "move"):
                     continue
                 dc = b.single_def(ts["discr"]["pl"]["l"])
-                if not dc or dc[2] != "assign" or dc[3]["rv"]["k"] != "bin" or dc[3]["rv"]["op"] not in ("Lt", "Le", "Gt", "Ge"):
+                if not dc or dc[2] != "assign" or dc[3]["rv"]["k"] != "bin" or dc[3]["rv"]["op"] not in ("Lt", "Le", "Gt", "Ge", "Eq", "Ne"):
                     continue
                 on_true = ts["otherwise"] == bi or ts["otherwise"] in dom[bi]
-                if not on_true:
+                f0 = [tg for v, tg in ts["targets"] if v == 0]
+                on_false = bool(f0) and (f0[0] == bi or f0[0] in dom[bi])
+                if on_true == on_false:
                     continue
                 op, a_, b_ = dc[3]["rv"]["op"], dc[3]["rv"]["a"], dc[3]["rv"]["b"]
+                if on_false:
+                    # the index sits on the edge where the test is false: `!(x >= len)` is `x < len`, `!(x == 0)` is `x != 0`
+                    op = {"Lt": "Ge", "Le": "Gt", "Gt": "Le", "Ge": "Lt", "Eq": "Ne", "Ne": "Eq"}[op]
 
                 def plain(o):
                     return o.get("k") in ("copy", "move") and b.root_of(o["pl"]["l"])[0] == base and not b.root_of(o["pl"]["l"])[1] and \
@@ -94,7 +99,8 @@ def check(facts):
                 cz = b.const_of_operand(b_) if plain(a_) else (b.const_of_operand(a_) if plain(b_) else None)
                 if cz is not None:
                     if (plain(a_) and ((op == "Gt" and cz >= off - 1) or (op == "Ge" and cz >= off))) or \
-                            (plain(b_) and ((op == "Lt" and cz >= off - 1) or (op == "Le" and cz >= off))):
+                            (plain(b_) and ((op == "Lt" and cz >= off - 1) or (op == "Le" and cz >= off))) or \
+                            (op == "Ne" and cz == 0 and off <= 1):
                         lower = ts.get("line")
             if upper is None:
                 r.fail(key, "the direct index at line %s is not dominated by a strict test `index < len` on the plain index%s: an index equal "
